@@ -796,11 +796,7 @@ def rand_arg(rng, nb, energies, flavour):
         # the lowest energy below the edge, the highest band entirely above it: some bands stay, not all
         if not energies:
             return None
-        gmin = vals[0]
-        top = min(max(e) for e in energies.values())
-        cand = [m for m in mids if gmin < m < top and all(max(e) > m for e in energies.values()) and
-                all(all(not (e[b] > m) for e in energies.values()) or True for b in range(nb))]
-        cand = [m for m in cand if any(all(e[b] > m for e in energies.values()) for b in range(nb))]
+        cand = [m for m in mids if m > vals[0] and any(all(e[b] > m for e in energies.values()) for b in range(nb))]
         if not cand:
             return None
         a["hi"] = rng.choice(cand)
@@ -849,18 +845,20 @@ def files_json(files):
 def record_calls(rep, vio, rng, n, info):
     from wannierberri.w90files.wandata import WannierData
     recs, meta = [], []
-    it = 0
+    it = nfile = ncont = nlater = 0
+    classes = sorted(W.SPEC_TAGS)
     while len(recs) < n:
         it += 1
         kind = ("file", "cont", "cont", "later")[it % 4]
         if kind == "file":
-            cls = rng.choice(list(W.SPEC_TAGS))
-            nk, nb = rng.randint(1, 3), rng.randint(1, 5)
+            cls, skind = classes[nfile % len(classes)], FILE_KINDS[nfile % len(FILE_KINDS)]       # (deterministic: every kind on five classes)
+            nfile += 1
+            nk, nb = rng.randint(1, 3), rng.randint(2, 5)
             nw = rng.randint(1, nb)
             ks = list(range(nk)) if rng.random() > 0.2 or nk == 1 else sorted(rng.sample(range(nk), nk - 1))
             o = rand_obj(rng, cls, nk, nb, nw, 2, ks, wannierised=rng.random() < 0.2, energies=rand_energies(rng, nk, nb))
             x = build(o)
-            sl = rand_sel(rng, nb)
+            sl = rand_sel(rng, nb, skind)
             r, ex, site = call(x.select_bands, sel_arg(sl, it))
             if ex is not None and harness_side(ex, site, f"{cls}.select_bands"):
                 continue
@@ -877,7 +875,15 @@ def record_calls(rep, vio, rng, n, info):
             meta.append(dict(kind=kind, cls=cls, dims=o["dim"], selected_bands=sl, exception=None if ex is None else exc(ex)))
             rep.case(("rec", "file", cls, tuple(sl), it))
             continue
-        objs, par = rand_container(rng, None)
+        if kind == "cont":
+            flavour = FLAVOURS[ncont % len(FLAVOURS)]
+            nfirst = 1 if flavour == "again_refused" else 0 if flavour in ("no_eig", "wannierised") else (ncont // len(FLAVOURS)) % 2
+            objs, par = rand_container(rng, need_eig=(flavour != "no_eig"), wannierised=(flavour == "wannierised"), plain=(flavour != "wannierised"))
+        else:
+            flavour = None
+            nfirst = (1, 2, 2, 0, 3)[nlater % 5]
+            how = ("set_projections", "manually")[nlater % 2]
+            objs, par = rand_container(rng, need_eig=True, plain=True)
         w = WannierData()
         ok = True
         for k, o in objs.items():
@@ -891,16 +897,11 @@ def record_calls(rep, vio, rng, n, info):
         selected = False
         rets = []
         nb = par["nb"]
-        has_eig = "eig" in objs
-        # now and then a first (valid) selection, so that the recorded call is the second one
-        nfirst = 0 if kind == "cont" and rng.random() < 0.6 else rng.choice([1, 1, 2]) if kind == "later" else 1
-        if kind == "later" and rng.random() < 0.15:
-            nfirst = 0
-        clean = not (("chk" in objs) and "v_matrix" in objs["chk"]["dic"])
+        # first (valid) selections keeping at least two bands, so that the recorded call is a later one
         for j in range(nfirst):
-            if not (has_eig and clean and nb > 0):
-                break
-            sl = rand_sel(rng, nb, ("subset", "subset", "permuted", "identity"))
+            sl = sorted(rng.sample(range(nb), rng.randint(min(2, nb), nb)))
+            if rng.random() < 0.3:
+                rng.shuffle(sl)
             r, ex, site = call(w.select_bands, selected_bands=list(sl), **(dict(allow_again=True) if selected else {}))
             if ex is not None:
                 if not harness_side(ex, site, "WannierData.select_bands"):
@@ -919,7 +920,7 @@ def record_calls(rep, vio, rng, n, info):
             else:
                 objs_amn = objs["amn"]
             fresh = rand_obj(rng, "amn", par["nk"], par["nb"], objs_amn["dim"]["NW"], 2, par["ks"])
-            how = rng.choice(["set_projections", "manually"])
+            nlater += 1
             if how == "set_projections":
                 ex, site, driven = set_projections_real(w, fresh)
                 if ex is not None and harness_side(ex, site, "WannierData.set_projections"):
@@ -958,8 +959,11 @@ def record_calls(rep, vio, rng, n, info):
             info.note("records:cannot_project_the_container")
             continue
         en = {k: v for k, v in before["eig"]["dic"]["data"].items()} if "eig" in before else None
-        a = rand_arg(rng, nb, en)
-        again = selected and rng.random() < 0.8
+        a = rand_arg(rng, nb, en, flavour)
+        if a is None:
+            continue                                # (this flavour cannot be made on these energies: another container)
+        ncont += 1
+        again = selected and flavour != "again_refused"
         kw = kwargs_of(a, again, variant=it)
         r, ex, site = call(w.select_bands, **kw)
         if ex is not None and harness_side(ex, site, "WannierData.select_bands"):
